@@ -511,6 +511,24 @@ func genC12(seed uint64, tier string) *Scenario {
 			}
 			continue
 		}
+		if r.chance(1, 14) {
+			// an expanding Replace (the output outgrows the buffer class the input asked for), then a Replace whose
+			// input falls into the next classes, on any Regexp: the pools are process-wide
+			re1, re2 := r.n(nre), r.n(nre)
+			unit := func(p *pat) string {
+				if u := p.Frags[r.n(len(p.Frags))]; u != "" {
+					return u
+				}
+				return "a"
+			}
+			u1, u2 := unit(pats[re1]), unit(pats[re2])
+			l1 := []int{700, 1500, 2500, 3500, 5000, 10000}[r.n(6)]
+			l2 := l1 * (2 + r.n(3))
+			cl.Ops = append(cl.Ops,
+				Op{Kind: OpReplace, Re: re1, In: InputSpec{Unit: u1, Rep: l1/len(u1) + 1}, Repl: []string{"$0$0$0", "<$0$0>", "$0$0", "[$0|$0|$0|$0]", "$_"}[r.n(5)], N: -1, TimeoutNs: -1},
+				Op{Kind: []int{OpReplace, OpReplace, OpReplaceFunc, OpReplaceAt}[r.n(4)], Re: re2, In: InputSpec{Unit: u2, Rep: l2/len(u2) + 1, Suf: u1}, Repl: pickRepl(r), N: -1, TimeoutNs: -1})
+			continue
+		}
 		if r.chance(1, 25) {
 			cl.Ops = append(cl.Ops, Op{Kind: OpPoolGC})
 			continue
